@@ -45,7 +45,7 @@ func Spec() *evid.Spec {
 		Lanes: []evid.Lane{
 			{Name: "seq", Children: evid.Const(8, 16), Cases: evid.Const(6000, 60000), TimeoutS: evid.Const(300, 3000), Run: runSeq},
 			{Name: "consumer", Children: evid.Const(8, 16), Cases: evid.Const(6, 120), TimeoutS: evid.Const(900, 7200),
-				Setup: func(ch *evid.Child) { ch.Data = dsim.NewEnv() }, Run: runConsumer},
+				Setup: func(ch *evid.Child) { ch.Data = dsim.NewEnv(); dsim.QueueWatchdog = 10 * time.Second }, Run: runConsumer},
 			{Name: "conc", Race: true, Children: evid.Const(8, 16), Cases: evid.Const(1500, 12000), TimeoutS: evid.Const(400, 3000), Run: runConc},
 		},
 	}
@@ -712,6 +712,11 @@ func runConsumer(c *evid.Case) {
 		if violated {
 			return
 		}
+		if cl.QueueStuck {
+			violated = true
+			c.Violation("pop-blocked-with-admissible", role.String()+"/"+phase, "the consumer did not pop a queued message that its filter admits (10 s watchdog): lost, or the pop never returned it", map[string]any{"actions": tailS(cl.Acts, 80)})
+			return
+		}
 		for _, op := range hon {
 			real, model := op.QueueRealLen(role), op.QueueModelLen(role)
 			if model > 0 {
@@ -748,7 +753,7 @@ func runConsumer(c *evid.Case) {
 		t := []specqbft.MessageType{specqbft.PrepareMsgType, specqbft.CommitMsgType, specqbft.RoundChangeMsgType}[rng.Intn(3)]
 		sm := env.SignQBFT(cl.KS, from, &specqbft.Message{MsgType: t, Height: height, Round: specqbft.Round(1 + rng.Intn(2)), Identifier: id[:], Root: qsim.Root([]byte("V-early"))})
 		for _, op := range hon {
-			if rng.Intn(2) == 0 {
+			if rng.Intn(2) == 0 && !cl.QueueStuck {
 				_ = cl.Deliver(op, dsim.WrapConsensus(id, sm), "early")
 			}
 		}
@@ -757,10 +762,13 @@ func runConsumer(c *evid.Case) {
 	// phase 1: the duty, with everything the cluster says going through the real queues
 	duty := dsim.DutyFor(role, slot)
 	for _, op := range hon {
+		if violated {
+			break
+		}
 		_ = cl.StartDuty(op, duty, "fresh", nil)
 		check("duty-start")
 	}
-	for k := 0; k < 400 && !violated; k++ {
+	for k := 0; k < 400 && !violated && !cl.QueueStuck; k++ {
 		if cl.DrainAll(5+rng.Intn(20)) == 0 {
 			break
 		}
@@ -770,7 +778,7 @@ func runConsumer(c *evid.Case) {
 		handled += len(op.Actions)
 	}
 	// phase 2: late messages after the duty
-	for i := 0; i < 3; i++ {
+	for i := 0; i < 3 && !violated && !cl.QueueStuck; i++ {
 		from := spectypes.OperatorID(1 + rng.Intn(n))
 		sm := env.SignQBFT(cl.KS, from, &specqbft.Message{MsgType: specqbft.CommitMsgType, Height: height + specqbft.Height(rng.Intn(2)), Round: 1, Identifier: id[:], Root: qsim.Root([]byte("V-late"))})
 		for _, op := range hon {
